@@ -583,3 +583,176 @@ def cond_exprs(prog, fn, bb):
         else:
             res.append(('switch', c['expr'], tuple(map(str, c['taken']))))
     return res
+
+
+# ---- exact path conditions as DNF -----------------------------------------------------------------
+def _arms(fn, s):
+    t = fn.blocks[s]['term']
+    arms = [(v, b) for v, b in t['targets']]
+    if fn.blocks[t['otherwise']]['term']['k'] != 'unreachable':
+        arms.append(('otherwise', t['otherwise']))
+    return arms
+
+
+def path_dnf(prog, fn, bb, limit=400):
+    """Exact path condition of block bb over acyclic paths (back edges ignored), as a list of
+    conjunctions; each conjunction is a dict {switch_bb: frozenset(arm values)}. Returns None when
+    the DNF exceeds `limit` conjunctions."""
+    g = cfg(fn)
+    idom = g.idom()
+    back = set(g.back_edges())
+    # reverse post-order over forward edges
+    order, seen = [], set()
+    st = [(0, iter(g.succ[0]))]
+    seen.add(0)
+    while st:
+        n, it = st[-1]
+        adv = False
+        for s in it:
+            if (n, s) in back or s in seen:
+                continue
+            seen.add(s)
+            st.append((s, iter(g.succ[s])))
+            adv = True
+            break
+        if not adv:
+            order.append(n)
+            st.pop()
+    rpo = list(reversed(order))
+    can_reach = set()
+    stack = [bb]
+    while stack:
+        x = stack.pop()
+        if x in can_reach:
+            continue
+        can_reach.add(x)
+        for p in g.pred[x]:
+            if (p, x) not in back:
+                stack.append(p)
+    dnf = {0: [dict()]}
+    for n in rpo:
+        if n not in can_reach or n not in dnf:
+            continue
+        if n == bb:
+            break
+        cur = dnf[n]
+        t = fn.blocks[n]['term']
+        if t['k'] == 'switch':
+            arms = _arms(fn, n)
+            by_t = {}
+            for v, b in arms:
+                by_t.setdefault(b, set()).add(v)
+            all_vals = frozenset(v for v, _ in arms)
+            for b, vs in by_t.items():
+                if (n, b) in back or b not in can_reach:
+                    continue
+                lit = frozenset(vs)
+                new = []
+                for c in cur:
+                    if lit == all_vals:
+                        new.append(c)
+                    else:
+                        d = dict(c)
+                        d[n] = lit if n not in d else (d[n] & lit)
+                        if d[n]:
+                            new.append(d)
+                dnf.setdefault(b, []).extend(new)
+        else:
+            for b in g.succ[n]:
+                if (n, b) in back or b not in can_reach:
+                    continue
+                dnf.setdefault(b, []).extend(cur)
+        for b in g.succ[n]:
+            if b in dnf:
+                dnf[b] = _simplify(fn, dnf[b])
+                if len(dnf[b]) > limit:
+                    return None
+    return _simplify(fn, dnf.get(bb, []))
+
+
+def _simplify(fn, conjs):
+    # dedupe
+    uniq = {}
+    for c in conjs:
+        uniq[frozenset(c.items())] = c
+    conjs = list(uniq.values())
+    changed = True
+    while changed:
+        changed = False
+        switches = set()
+        for c in conjs:
+            switches.update(c.keys())
+        for s in switches:
+            all_vals = frozenset(v for v, _ in _arms(fn, s))
+            groups = {}
+            for c in conjs:
+                rest = frozenset((k, v) for k, v in c.items() if k != s)
+                groups.setdefault(rest, []).append(c)
+            new = []
+            for rest, cs in groups.items():
+                if len(cs) == 1:
+                    new.append(cs[0])
+                    continue
+                vals = frozenset()
+                has_free = False
+                for c in cs:
+                    if s in c:
+                        vals |= c[s]
+                    else:
+                        has_free = True
+                d = dict(rest)
+                if not has_free and vals != all_vals:
+                    d[s] = vals
+                new.append(d)
+                changed = True
+            conjs = new
+        # absorption: drop conjunctions implied by a weaker one
+        out = []
+        for c in conjs:
+            absorbed = False
+            for d in conjs:
+                if d is c:
+                    continue
+                if all(k in c and c[k] <= d[k] for k in d) and (len(d) < len(c) or any(c[k] < d[k] for k in d)):
+                    absorbed = True
+                    break
+            if not absorbed:
+                out.append(c)
+        if len(out) != len(conjs):
+            changed = True
+        conjs = out
+    return conjs
+
+
+def path_conditions(prog, fn, bb, limit=400):
+    """DNF of the path condition of bb as lists of canonical condition expressions (same
+    vocabulary as cond_exprs). None if too large."""
+    d = path_dnf(prog, fn, bb, limit)
+    if d is None:
+        return None
+    out = []
+    for conj in d:
+        lits = []
+        for s in sorted(conj):
+            vals = conj[s]
+            e, kind, labels, adt = switch_info(prog, fn, s)
+            if kind == 'bool':
+                labs = {labels.get(v, v) for v in vals}
+                if labs == {True}:
+                    lits.append(e)
+                elif labs == {False}:
+                    lits.append(negate(e))
+            elif kind == 'enum':
+                arms = _arms(fn, s)
+                listed = {labels.get(v, v) for v, _ in arms if v != 'otherwise'}
+                labs = []
+                for v in vals:
+                    if v == 'otherwise':
+                        labs.extend(str(x) for x in (set(labels.values()) - listed))
+                    else:
+                        labs.append(str(labels.get(v, v)))
+                lits.append(('is', e, tuple(sorted(labs))))
+            else:
+                lits.append(('switch', e, tuple(sorted(map(str, vals)))))
+        out.append(lits)
+    return out
